@@ -10,6 +10,8 @@ if [ -z "$R" ]; then R=$(mktemp -d /tmp/seedmx.XXXX)/repo; git -C /repo worktree
 miss=0; n=0
 for d in seeded/*/; do
   id=$(basename "$d"); prop=$(python3 -c "import json;print(json.load(open('$d/meta.json'))['property'])")
+  exp=$(python3 -c "import json;print(json.load(open('$d/meta.json'))['caught_by_check'])")
+  if [ "$exp" = "no" ]; then echo "$id $prop documented miss (not run)"; continue; fi
   git -C "$R" checkout -q -- . && git -C "$R" clean -fdq
   if ! git -C "$R" apply "$PWD/$d/patch.diff"; then echo "$id $prop PATCH-DOES-NOT-APPLY"; miss=$((miss+1)); continue; fi
   out=$(VERIF_REPO="$R" VERIF_SEED=${VERIF_SEED:-0} ./check "$prop" quick 2>&1); rc=$?
